@@ -53,6 +53,48 @@ def last(name):
     return name.split("::")[-1]
 
 
+def _worker_of(prog, drv_path):
+    """the recursive worker of `retain` wherever it is declared: the one crate-local function called from the driver (or its closures) that calls itself"""
+    seen = set()
+    for bp in [drv_path] + prog.closures_by_root.get(drv_path, []):
+        body = prog.body(bp)
+        if body is None:
+            continue
+        for _, t in body.calls():
+            c = t.get("resolved") or t.get("callee") or ""
+            if mir.strip_generics(c).startswith(prog.crate + "::"):
+                tgt = [p_ for p_ in prog.fns if p_ == c or mir.strip_generics(p_) == mir.strip_generics(c)]
+                if len(tgt) == 1:
+                    seen.add(tgt[0])
+    rec = []
+    for p_ in seen:
+        nm = mir.strip_generics(p_)
+        bodies = [prog.body(x) for x in [p_] + prog.closures_by_root.get(p_, [])]
+        if any(bd is not None and any(bd.callee_name(t) == nm for _, t in bd.calls()) for bd in bodies):
+            rec.append(p_)
+    return rec[0] if len(rec) == 1 else None
+
+
+def _canonical_order(prog, rt_path):
+    """(id, types, new_types, retained_mappings) by parameter type, whatever order they are declared in"""
+    f = prog.fns.get(rt_path)
+    if f is None or len(f.get("inputs", [])) != 4:
+        return
+    roles = {}
+    for i, tix in enumerate(f["inputs"], 1):
+        ts = prog.ty_s(tix)
+        if ts == "u32":
+            roles.setdefault("id", []).append(i)
+        elif "BTreeMap<u32, u32>" in ts:
+            roles.setdefault("map", []).append(i)
+        elif "PortableType" in ts and "Vec<" in ts:
+            roles.setdefault("new", []).append(i)
+        elif "PortableType" in ts:
+            roles.setdefault("types", []).append(i)
+    if all(len(roles.get(k, [])) == 1 for k in ("id", "types", "new", "map")):
+        mir.canonicalise_params(prog, rt_path, [roles["id"][0], roles["types"][0], roles["new"][0], roles["map"][0]])
+
+
 def check_config(chk, prog, cfg):
     METHOD = None     # method form: `impl Retainer { fn retain_type(&mut self, id) }` with the three collections as fields of a local struct
     try:
@@ -65,8 +107,11 @@ def check_config(chk, prog, cfg):
                 raise
             rt_path = cands[0]
     except mir.AnchorError as e:
-        chk.anchor_missing("retain/retain_type", str(e))
-        return
+        rt_path = _worker_of(prog, drv_path) if "drv_path" in locals() else None
+        if rt_path is None:
+            chk.anchor_missing("retain/retain_type", str(e))
+            return
+    _canonical_order(prog, rt_path)
     b = prog.body(rt_path)
     chk.count("bodies", 2)
     W = lambda bb=None: b.where(bb)
